@@ -33,7 +33,7 @@ import (
 func init() {
 	core.RegisterMeta("C34", core.Meta{
 		Rule: "zcrypto<->zcrypto pairs (TLS 1.2 and 1.3; GCM, ChaCha20, CBC, RC4), 2..8 goroutines per side with random programs over Read / Write / Handshake (also racing into the first handshake) / ConnectionState / " +
-			"GetHandshakeLog (after the caller's own Handshake returned) / SetDeadline, SetReadDeadline, SetWriteDeadline (zero, far, near, past) / CloseWrite / Close, optional mid-transfer CloseWrite, Close or transport cut; TLS 1.3 sessions also send KeyUpdate messages (driver hook VerifSendKeyUpdate), one family with a dedicated key-update goroutine per side against 3-4 small-write writers; " +
+			"GetHandshakeLog (after the caller's own Handshake returned) / SetDeadline, SetReadDeadline, SetWriteDeadline (zero, far, near, past) / CloseWrite / Close, optional mid-transfer CloseWrite, Close or transport cut; TLS 1.3 sessions also send KeyUpdate messages (driver hook VerifSendKeyUpdate), one family with a dedicated key-update goroutine per side against 3-4 small-write writers; one TLS 1.0-1.2 family where the client allows renegotiation, the server injects HelloRequests (exported WriteRecord) and 2-4 client goroutines poll ConnectionState; " +
 			"writes are writer-tagged, sequence-numbered 8-byte cells so interleaved Write calls stay decodable; single-reader sessions check the exact stream, multi-reader sessions check per-fragment chunk structure, no duplicate / lost cell, per-reader order; " +
 			"after both transports are closed every goroutine must return. non-trivial = both handshakes completed, data delivered, >= 4 distinct kinds of operation pairs overlapped in time; distinct by (plan, set of overlapping pairs). race leg: same sessions under -race",
 		MinNontrivial:         200,
@@ -44,7 +44,7 @@ func init() {
 		Assumptions: []string{
 			"Go's race detector reports only races that occur in the executed schedules",
 			"net.Conn semantics: methods may be called from several goroutines at once; concurrent Write calls are atomic per call (zcrypto holds the out lock for a whole Write)",
-			"GetHandshakeLog is not in the property's list of calls: it is only invoked after the calling goroutine's own Handshake returned",
+			"GetHandshakeLog is not in the property's list of calls: it is only invoked after the calling goroutine's own Handshake returned, and not at all in sessions with renegotiation (there it does race with the re-handshake on the unchanged tree: unsynchronised getter)",
 			"the in-memory transport synchronises same-side callers through its own mutex, as a kernel socket does",
 			"blocking rule budget: 20 s after both transports were closed; the 45 s watchdogs of the transfer phase is inconclusive, never a verdict",
 		},
@@ -68,7 +68,9 @@ type c34Plan struct {
 	CloserAt  int    // microseconds after start
 	CloserOn  int    // side
 	EarlyHS   bool   // everybody starts with an explicit Handshake
-	KU        int    // TLS 1.3 key updates: 0 none, 1 sprinkled into the misc programs, 2 dedicated goroutine per side against several small-write writers
+	Reneg     int    // TLS 1.0-1.2: 0 no; 1 / 2 the client allows renegotiation (once / freely), the server injects HelloRequests, client goroutines poll ConnectionState
+	RenegN    int
+	KU        int // TLS 1.3 key updates: 0 none, 1 sprinkled into the misc programs, 2 dedicated goroutine per side against several small-write writers
 	KUCount   int
 	Seed      uint64
 }
@@ -177,6 +179,16 @@ func genC34Plan(seed int64, leg string, idx int) *c34Plan {
 	} else if tls13 && rng.IntN(2) == 0 {
 		p.KU = 1
 	}
+	if idx%8 == 5 {
+		// renegotiation family: a HelloRequest makes the client's Read run the client handshake again (the zcrypto server
+		// refuses, so the session ends there); meanwhile other client goroutines keep asking for the connection state
+		p.Cell = []string{"0303/c02f", "0303/002f", "0302/c013", "0301/c013", "0303/cca8"}[(idx/8)%5]
+		p.NW, p.NR, p.NM = [2]int{1 + rng.IntN(2), 1 + rng.IntN(2)}, [2]int{1, 1}, [2]int{2 + rng.IntN(3), rng.IntN(2)}
+		p.Chunks, p.MaxCells = 40+rng.IntN(100), 8
+		p.Procs = []int{2, 4, 16}[rng.IntN(3)]
+		p.Deadlines, p.Closer, p.Capacity, p.KU = false, "none", 0, 0
+		p.Reneg, p.RenegN = 1+rng.IntN(2), 1+rng.IntN(3)
+	}
 	if p.KU > 0 {
 		// answering a key update needs the out lock inside Read; with a bounded pipe both sides can wait for each other's reader
 		p.Capacity = 0
@@ -241,6 +253,12 @@ func runC34Session(c *core.Ctx, id string, cl cell, p *c34Plan, pairKinds map[st
 	a, b, _ := netx.Pipe(mkOpt(p.Seed), mkOpt(p.Seed^0x55))
 	seed := hash64(id)
 	cc, sc := zClient(cl, seed), zServer(cl, seed+1)
+	switch p.Reneg {
+	case 1:
+		cc.Renegotiation = ztls.RenegotiateOnceAsClient
+	case 2:
+		cc.Renegotiation = ztls.RenegotiateFreelyAsClient
+	}
 	for s := 0; s < 2; s++ {
 		if p.multiReader(1 - s) {
 			// the peer has several readers: keep records cell-aligned so that every fragment is decodable on its own
@@ -387,7 +405,9 @@ func runC34Session(c *core.Ctx, id string, cl cell, p *c34Plan, pairKinds map[st
 						sess.op(g, "Handshake", func() { err = conn.Handshake() })
 						hsOK = err == nil
 					case k < 9:
-						if hsOK {
+						// with renegotiation the log pointer is replaced by a later handshake, so "after my own Handshake
+						// returned" no longer orders the unsynchronised getter (which is not in the statement's list): not called there
+						if hsOK && p.Reneg == 0 {
 							sess.op(g, "GetHandshakeLog", func() {
 								if l := conn.GetHandshakeLog(); l != nil && l.ServerHello != nil {
 									_ = l.ServerHello.Version
@@ -451,6 +471,51 @@ func runC34Session(c *core.Ctx, id string, cl cell, p *c34Plan, pairKinds map[st
 			}()
 		}
 	}
+	var wgReneg sync.WaitGroup
+	if p.Reneg > 0 {
+		// the server asks for renegotiation through the exported WriteRecord (handshake record holding a HelloRequest)
+		g := &gState{side: 1, role: "reneg"}
+		all = append(all, g)
+		r := rand.New(rand.NewPCG(p.Seed, 500))
+		wgReneg.Add(1)
+		wgMisc[1].Add(1)
+		go func() {
+			defer wgMisc[1].Done()
+			defer wgReneg.Done()
+			<-gate
+			var err error
+			sess.op(g, "Handshake", func() { err = conns[1].Handshake() })
+			if err != nil {
+				return
+			}
+			for i := 0; i < p.RenegN; i++ {
+				time.Sleep(time.Duration(200+r.IntN(4000)) * time.Microsecond)
+				sess.op(g, "WriteRecord(HelloRequest)", func() { conns[1].WriteRecord(22, []byte{0, 0, 0, 0}) })
+			}
+		}()
+		// the client's misc goroutines become pure ConnectionState pollers for a while
+		for m := 0; m < 2+int(p.Seed%3); m++ {
+			g := &gState{side: 0, role: "poller", id: m}
+			all = append(all, g)
+			wgMisc[0].Add(1)
+			go func() {
+				defer wgMisc[0].Done()
+				<-gate
+				var err error
+				sess.op(g, "Handshake", func() { err = conns[0].Handshake() })
+				if err != nil {
+					return
+				}
+				start := time.Now()
+				for i := 0; time.Since(start) < 40*time.Millisecond; i++ {
+					sess.op(g, "ConnectionState", func() { _ = conns[0].ConnectionState().ServerName })
+					if i%8 == 7 {
+						runtime.Gosched()
+					}
+				}
+			}()
+		}
+	}
 	// optional closer
 	closerG := &gState{side: p.CloserOn, role: "closer"}
 	var wgCloser sync.WaitGroup
@@ -496,7 +561,16 @@ func runC34Session(c *core.Ctx, id string, cl cell, p *c34Plan, pairKinds map[st
 	go func() { wgWriters[0].Wait(); wgWriters[1].Wait(); wgCloser.Wait(); close(writersDone) }()
 	watchdog := false
 	coord := [2]*gState{{side: 0, role: "coordinator"}, {side: 1, role: "coordinator"}}
-	if waitTimeout(writersDone, 45*time.Second) {
+	if p.Reneg > 0 {
+		// the refused renegotiation leaves the client inside its second handshake and its writers queued behind it:
+		// nothing more will move; give the pollers their time, then go straight to the close (phase 2)
+		renegDone := make(chan struct{})
+		go func() { wgReneg.Wait(); close(renegDone) }()
+		if !waitTimeout(renegDone, 45*time.Second) {
+			watchdog = true
+		}
+		waitTimeout(allDone, 60*time.Millisecond)
+	} else if waitTimeout(writersDone, 45*time.Second) {
 		for s := 0; s < 2; s++ {
 			sess.op(coord[s], "CloseWrite", func() { conns[s].CloseWrite() })
 			// the transport's write side follows, so that the peer's readers end even if the alert could not be sent
@@ -548,6 +622,11 @@ func runC34Session(c *core.Ctx, id string, cl cell, p *c34Plan, pairKinds map[st
 
 	// ---- stream oracle ----
 	hsOK := conns[0].ConnectionState().HandshakeComplete && conns[1].ConnectionState().HandshakeComplete
+	if p.Reneg > 0 && conns[1].ConnectionState().HandshakeComplete && !conns[0].ConnectionState().HandshakeComplete && conns[0].ConnectionState().Version != 0 {
+		// the client went back into a handshake: the HelloRequest was processed
+		hsOK = true
+		c.Count("renegotiations_started", 1)
+	}
 	delivered := 0
 	for from := 0; from < 2; from++ {
 		to := 1 - from
@@ -563,10 +642,10 @@ func runC34Session(c *core.Ctx, id string, cl cell, p *c34Plan, pairKinds map[st
 		sort.Slice(writers, func(i, j int) bool { return writers[i].id < writers[j].id })
 		// an abrupt end on the sending side (Close with writes in flight, transport cut) legitimately truncates the stream
 		// at a record boundary, which zcrypto reports as io.EOF just like an orderly close
-		orderly := !((p.Closer == "close" || p.Closer == "cut") && p.CloserOn == from)
+		orderly := !((p.Closer == "close" || p.Closer == "cut") && p.CloserOn == from) && p.Reneg == 0
 		key, detail, got := checkStream(writers, readers, orderly)
 		delivered += got
-		if key == "" && hsOK && p.Closer == "none" && !p.Deadlines && !watchdog {
+		if key == "" && hsOK && p.Closer == "none" && !p.Deadlines && !watchdog && p.Reneg == 0 {
 			// nothing disturbed this session (no close, no cut, no deadline): the direction must end in order,
 			// every Write must have succeeded and every reader must see EOF after the last byte
 			for _, w := range writers {
